@@ -398,7 +398,11 @@ impl G {
                         if last.contains(' ') && !self.wild { es.push(last) } else if last.contains(' ') { es.push(format!("({})?", last)) } else { es.push(format!("{}?", last)) }
                     }
                     2 if n > 0 => {
-                        es = es.iter().enumerate().map(|(i, e)| format!("n{}: {}", i, e)).collect();
+                        // labelled members, some optional (wild: a required one after an optional one)
+                        let first_opt = self.rng.below(n + 1);
+                        let wild = self.wild;
+                        let gap = wild && self.chance(1, 3);
+                        es = es.iter().enumerate().map(|(i, e)| if (i >= first_opt && !(gap && i + 1 == n)) || (gap && i == 0) { format!("n{}?: {}", i, e) } else { format!("n{}: {}", i, e) }).collect();
                     }
                     _ => {}
                 }
